@@ -34,21 +34,33 @@ class _Match:
         return True
 
 
+class Record:
+    """a plain object with the given attributes (an exception instance, a token ...) that the evaluated code may read;
+    `isa` names the classes `isinstance(record, ..)` answers True for"""
+
+    def __init__(self, isa=(), **fields):
+        self._isa = set(isa)
+        self.__dict__.update(fields)
+
+
 class ClassEval:
     MAX_DEPTH = 12
     MAX_WHILE = 200
 
-    def __init__(self, ce, mod, cls, attrs: Dict[str, Any]):
+    def __init__(self, ce, mod, cls, attrs: Dict[str, Any], repo=None, globals_override: Dict[str, Any] = None):
         self.ce, self.mod, self.cls = ce, mod, cls
         self.attrs = attrs
+        self.repo = repo
+        self.globals_override = dict(globals_override or {})
         self.depth = 0
         self.calls: List[str] = []
         self.stream = None          # characters still to be read (a list), when the class reads `self.stream.char()`
         self.emitted: List[Any] = []   # what was appended to `self.tokenQueue`
+        self.yielded: List[Any] = []   # what a generator method yielded
         self.patterns: Dict[str, ast.Call] = {}        # "name" / "self.name" -> re.compile(...) call node
         for st in mod.tree.body:
             self._note_pattern(st, "")
-        for c in cls.mro():
+        for c in (cls.mro() if cls is not None else []):
             for st in c.node.body:
                 self._note_pattern(st, "self.")
 
@@ -92,11 +104,71 @@ class ClassEval:
             if node.attr in self.attrs:
                 return self.attrs[node.attr]
             return NotImplemented
+        # attributes of a Record held by a local
+        if isinstance(node, ast.Attribute) and isinstance(node.value, ast.Name) and isinstance((local or {}).get(node.value.id), Record) and \
+                isinstance(node.ctx, ast.Load):
+            rec = local[node.value.id]
+            if node.attr.startswith("_") or not hasattr(rec, node.attr):
+                raise NotConstant("record has no attribute %s" % node.attr)
+            return getattr(rec, node.attr)
+        if isinstance(node, ast.Name) and isinstance(node.ctx, ast.Load) and node.id in self.globals_override and (local is None or node.id not in local):
+            return self.globals_override[node.id]
+        # constants of xml.dom.Node (node-type codes), wherever they are named
+        if isinstance(node, ast.Attribute) and isinstance(node.value, ast.Name) and node.value.id == "Node" and node.attr.endswith("_NODE"):
+            import xml.dom
+            if hasattr(xml.dom.Node, node.attr):
+                return getattr(xml.dom.Node, node.attr)
+        # a module-level constant of another package module that ConstEval cannot fold by itself (it is defined from xml.dom.Node)
+        if isinstance(node, ast.Attribute) and isinstance(node.value, ast.Name) and isinstance(node.ctx, ast.Load) and self.repo is not None and \
+                node.value.id in getattr(self.mod, "imports", {}) and (local is None or node.value.id not in local):
+            rr = self.repo.resolve_import(self.mod, node.value.id)
+            if rr and rr[0] is not None and rr[1] is None:
+                for st in rr[0].tree.body:
+                    if isinstance(st, ast.Assign) and len(st.targets) == 1 and isinstance(st.targets[0], ast.Name) and st.targets[0].id == node.attr:
+                        try:
+                            return self.ce.eval(st.value, rr[0], None)
+                        except NotConstant:
+                            break
+        # attribute of a Record reached through an expression (`node.attributes.length`)
+        if isinstance(node, ast.Attribute) and isinstance(node.ctx, ast.Load) and isinstance(node.value, (ast.Attribute, ast.Subscript, ast.Call)):
+            try:
+                base_ = self.ce.eval(node.value, self.mod, local)
+            except NotConstant:
+                base_ = None
+            if isinstance(base_, Record) and not node.attr.startswith("_") and hasattr(base_, node.attr) and not callable(getattr(base_, node.attr)):
+                return getattr(base_, node.attr)
         if not isinstance(node, ast.Call):
             return NotImplemented
         fn = node.func
         t = norm(fn)
         ev = lambda x: self._value(self.ce.eval(x, self.mod, local))  # noqa: E731
+        # a method of a Record: the model the rule supplied (not repository code)
+        if isinstance(fn, ast.Attribute) and not fn.attr.startswith("_"):
+            try:
+                base_ = (local or {}).get(fn.value.id) if isinstance(fn.value, ast.Name) else self.ce.eval(fn.value, self.mod, local)
+            except NotConstant:
+                base_ = None
+            if isinstance(base_, Record) and callable(getattr(base_, fn.attr, None)) and not node.keywords:
+                return getattr(base_, fn.attr)(*[ev(a) for a in node.args])
+        if t == "isinstance" and len(node.args) == 2 and isinstance(node.args[0], ast.Name) and isinstance((local or {}).get(node.args[0].id), Record):
+            names = [norm(e) for e in (node.args[1].elts if isinstance(node.args[1], (ast.Tuple, ast.List)) else [node.args[1]])]
+            return any(n_.split(".")[-1] in local[node.args[0].id]._isa for n_ in names)
+        # a function of this module, or of a package module imported by name (`_utils.isSurrogatePair(x)`)
+        if isinstance(fn, ast.Name) and fn.id in getattr(self.mod, "functions", {}) and (local is None or fn.id not in local) and not node.keywords:
+            return self.callf(self.mod, fn.id, [ev(a) for a in node.args])
+        if isinstance(fn, ast.Attribute) and isinstance(fn.value, ast.Name) and self.repo is not None and fn.value.id in getattr(self.mod, "imports", {}) \
+                and (local is None or fn.value.id not in local) and not node.keywords:
+            rr = self.repo.resolve_import(self.mod, fn.value.id)
+            target = None
+            if rr and rr[0] is not None:
+                target = rr[0] if rr[1] is None else None
+                if target is None and rr[1] is not None:
+                    # `from . import _utils`: the imported name is itself a module of the package
+                    for cand in self.repo.modules.values():
+                        if cand.dotted == rr[0].dotted + "." + rr[1] or cand.dotted.endswith("." + rr[1]) and cand.rel == rr[1] + ".py":
+                            target = cand
+            if target is not None and fn.attr in target.functions:
+                return self.callf(target, fn.attr, [ev(a) for a in node.args])
         if t in ("warnings.warn",):
             return None
         if self.stream is not None:
@@ -110,11 +182,16 @@ class ClassEval:
             if t == "self.tokenQueue.append" and len(node.args) == 1:
                 self.emitted.append(ev(node.args[0]))
                 return None
-        # a match object's group()
-        if isinstance(fn, ast.Attribute) and fn.attr in ("group", "groups", "start", "end") and isinstance(fn.value, ast.Name) and \
-                isinstance((local or {}).get(fn.value.id), _Match):
-            return getattr(local[fn.value.id].m, fn.attr)(*[ev(a) for a in node.args])
-        if isinstance(fn, ast.Attribute) and isinstance(fn.value, ast.Name) and fn.value.id == "self" and self.cls.find_method(fn.attr) is not None:
+        # a match object's group() / groups(), on a local or directly on the call that produced the match
+        if isinstance(fn, ast.Attribute) and fn.attr in ("group", "groups", "start", "end", "span"):
+            try:
+                mv = self.ce.eval(fn.value, self.mod, local) if not isinstance(fn.value, ast.Name) else (local or {}).get(fn.value.id)
+            except NotConstant:
+                mv = None
+            if isinstance(mv, _Match):
+                return getattr(mv.m, fn.attr)(*[ev(a) for a in node.args])
+        if isinstance(fn, ast.Attribute) and isinstance(fn.value, ast.Name) and fn.value.id == "self" and self.cls is not None and \
+                self.cls.find_method(fn.attr) is not None:
             if node.keywords:
                 kw = {k.arg: ev(k.value) for k in node.keywords}
             else:
@@ -148,6 +225,12 @@ class ClassEval:
 
     def _stmt_hook(self, st, out, interp):
         env = out.env
+        if isinstance(st, ast.Expr) and isinstance(st.value, ast.Yield):
+            try:
+                self.yielded.append(None if st.value.value is None else self._value(interp.eval_expr(st.value.value, env)))
+            except NotConstant as e:
+                raise AnalysisError("`%s` is not interpreted (%s)" % (norm(st)[:80], e))
+            return False
         if isinstance(st, ast.Expr) and isinstance(st.value, ast.Call):
             if norm(st.value.func) == "warnings.warn":
                 return False
@@ -214,27 +297,41 @@ class ClassEval:
         return NotImplemented
 
     # ------------------------------------------------------------------ calls
+    def callf(self, mod, fname: str, args: list):
+        """a module-level function of `mod` (this module or another module of the package)"""
+        f = mod.functions.get(fname)
+        if f is None:
+            raise AnalysisError("%s has no function %s" % (mod.rel, fname))
+        if mod is not self.mod:
+            sub = ClassEval(self.ce, mod, None, {}, repo=self.repo)
+            sub.depth = self.depth
+            return sub._run(f, f.params(), args, None, fname, with_self=False)
+        return self._run(f, f.params(), args, None, fname, with_self=False)
+
     def call(self, mname: str, args: list, kwargs: dict = None):
         f = self.cls.find_method(mname)
         if f is None:
             raise AnalysisError("%s has no method %s" % (self.cls.name, mname))
+        return self._run(f, f.params()[1:], args, kwargs, "%s.%s" % (self.cls.name, mname), with_self=True)
+
+    def _run(self, f, params, args, kwargs, label, with_self):
+        mname = label
         if self.depth >= self.MAX_DEPTH:
-            raise AnalysisError("call depth exceeded in %s.%s" % (self.cls.name, mname))
-        params = f.params()[1:]
+            raise AnalysisError("call depth exceeded in %s" % label)
         a = f.node.args
         if a.vararg or a.kwarg or a.kwonlyargs or len(args) > len(params):
-            raise AnalysisError("%s.%s: parameter list not supported" % (self.cls.name, mname))
-        env = {"self": Opaque("self")}
+            raise AnalysisError("%s: parameter list not supported" % mname)
+        env = {"self": Opaque("self")} if with_self else {}
         env.update(zip(params, args))
         for k, v in (kwargs or {}).items():
             if k not in params or k in env:
-                raise AnalysisError("%s.%s: unexpected keyword %s" % (self.cls.name, mname, k))
+                raise AnalysisError("%s: unexpected keyword %s" % (mname, k))
             env[k] = v
         for p_, d_ in zip(params[len(params) - len(a.defaults):], a.defaults):
             if p_ not in env:
                 env[p_] = self.ce.eval(d_, self.mod, None)
         if any(p_ not in env for p_ in params):
-            raise AnalysisError("%s.%s: missing argument" % (self.cls.name, mname))
+            raise AnalysisError("%s: missing argument" % mname)
         self.calls.append(mname)
         self.depth += 1
         saved = self.ce.hook
@@ -243,15 +340,15 @@ class ClassEval:
             try:
                 res = interp.run(f.node.body, env)
             except NotConstant as e:
-                raise AnalysisError("%s.%s is not evaluable (%s)" % (self.cls.name, mname, e))
+                raise AnalysisError("%s is not evaluable (%s)" % (mname, e))
         finally:
             self.depth -= 1
             self.ce.hook = saved
         if res.raised:
-            raise AnalysisError("%s.%s raises %s on this input" % (self.cls.name, mname, res.raised))
+            raise AnalysisError("%s raises %s on this input" % (mname, res.raised))
         leftover = [e.text for e in res.effects]
         if leftover:
-            raise AnalysisError("%s.%s has effects that are not interpreted: %s" % (self.cls.name, mname, leftover[:2]))
+            raise AnalysisError("%s has effects that are not interpreted: %s" % (mname, leftover[:2]))
         if res.returned and isinstance(res.value, Opaque):
-            raise AnalysisError("%s.%s returns an uninterpreted value (%s)" % (self.cls.name, mname, res.value.text))
+            raise AnalysisError("%s returns an uninterpreted value (%s)" % (mname, res.value.text))
         return res.value if res.returned else None
